@@ -83,6 +83,9 @@ def make_source(spec, gdir):
     if fmt == "raw":
         src.mkdir(parents=True, exist_ok=True)
         _write_tree(src, tree)
+        if spec.get("decoy_zip"):
+            # an outdated archive of the same name lies next to the folder on the global storage: the folder is the dataset
+            _zip_tree(src.with_suffix(".zip"), {"stale/old.bin": b"outdated content", "f.bin": b"old"})
         if spec.get("link"):
             # one sample of the plain-folder source is a relative symlink to a file outside the copied subtree (shared storage)
             outside = Path(gdir) / "outside"
@@ -108,6 +111,8 @@ def make_source(spec, gdir):
             extras.pop()
         for name in extras:
             (src / name).write_text("not part of the dataset")
+        if spec.get("decoy_zip"):
+            _zip_tree(src.with_suffix(".zip"), {"stale/old.bin": b"outdated content"})
     return gpath
 
 
@@ -146,6 +151,10 @@ def _call(spec, gpath, lpath):
         if not link.is_symlink():
             os.symlink(real_parent, link)
         lpath = link / Path(lpath).name
+    elif form == "tilde":
+        # the local path is given relative to the home directory ("~/data"): HOME points at the scenario's local root (child process only)
+        os.environ["HOME"] = str(Path(lpath).parent)
+        lpath = "~/" + Path(lpath).name
     elif form == "relcwd":
         # a local path relative to the working directory (this runs in the forked child only)
         os.chdir(Path(lpath).parent)
@@ -438,13 +447,20 @@ def tree_s(draw):
     return out
 
 
+# the four categorical dimensions are drawn as ONE choice from their full product: within the short per-shard runs Hypothesis tends to
+# produce clusters of similar examples, and independent draws left whole combinations (say: folder of zips x plain copy function x a
+# relative path with brackets) almost unvisited - a single draw over the product visits every combination evenly
+_COMBOS = [(f, fn, rel, pre) for f in ("raw", "zip", "zips") for fn in ("folder", "imagefolder")
+           for rel in (None, "sub", "sub/deep", "set[1]/d", "a [v1-3]") for pre in ("absent", "absent", "parent", "user", "user_empty")]
+
+
 @st.composite
 def scenario_s(draw, max_crashes=3):
-    fmt = draw(st.sampled_from(["raw", "zip", "zips"]))
-    return {"fmt": fmt, "tree": draw(tree_s()), "relative": draw(st.sampled_from([None, "sub", "sub/deep"])),
-            "pre": draw(st.sampled_from(["absent", "absent", "parent", "user", "user_empty"])), "fn": draw(st.sampled_from(["folder", "imagefolder"])),
+    fmt, fn_, rel_, pre_ = draw(st.sampled_from(_COMBOS))
+    return {"fmt": fmt, "tree": draw(tree_s()), "relative": rel_,
+            "pre": pre_, "fn": fn_,
             "readme": draw(st.sampled_from([0, 1, 2, 2])), "workers": draw(st.sampled_from([0, 1])),
-            "path_form": draw(st.sampled_from(["path", "str", "rel_path", "symlink", "relcwd"])), "link": draw(st.integers(0, 3)) == 0, "call": draw(st.sampled_from(["keyword", "keyword", "positional"])),
+            "path_form": draw(st.sampled_from(["path", "str", "rel_path", "symlink", "relcwd", "tilde"])), "link": draw(st.integers(0, 3)) == 0, "decoy_zip": draw(st.integers(0, 3)) == 0, "call": draw(st.sampled_from(["keyword", "keyword", "positional"])),
             "crashes": draw(st.lists(st.floats(0, 0.999).map(lambda f: round(f, 3)), min_size=min(max_crashes, draw(st.sampled_from([0, 1, 1, 1]))),
                                     max_size=max_crashes))}
 
